@@ -587,6 +587,8 @@ def oracle_book(L, R, mp, after, keep_port):
             continue
         rh = {x[0]: x for x in R["outp"] if x[3]}
         for i, h in enumerate(R["heralds"]):
+            if h[0] not in rh:
+                continue      # `heralds` of the added processor names a mode without an output herald port: nothing to name
             want = canon_name(rh[h[0]][2]) if rh[h[0]][5] is not None else "herald#"
             if len(names) <= n0 + i or names[n0 + i] != want:
                 return ("herald-names", f"port name of new herald mode {n0 + i} is not {want!r}: {names}")
@@ -2531,7 +2533,13 @@ def run(chk: core.Check):
                 "list mapping, component or processor), ~15% with arbitrary arguments, ~30% declaring every mode a herald first; "
                 "after every call m, circuit_size, is_mode_connectible, heralds, detectors, ports and port names (or the exception "
                 "class) are compared with the state machine of Model/C10Hist.lean, and reserved modes / circuit_size / observability "
-                "are judged directly; distinct = distinct (sizes, right shape, mapping) "
+                "are judged directly; plus (extension 5) processors built by a LIFE used as the added object: lives whose adds bring "
+                "a nested life (heralds declared, imported, ports added and removed, herald ports taken off the input or the "
+                "output side) — the model is told the nested life, runs it itself and reads the added processor through "
+                "Exp.side; the nested life's state and RightWF are compared, the add is compared call by call when the nested "
+                "life kept its herald ports on the output side (otherwise the added processor is malformed: only counted) — and "
+                "ordinary scenarios whose right-hand side is a well-formed life, judged like every other scenario (wiring, "
+                "unitary, heralds, detectors, ports; every mapping syntax, ~12% malformed); distinct = distinct (sizes, right shape, mapping) "
                 "signatures; non-trivial = a non-consecutive or non-monotone mapping of >= 2 modes")
     chk.assumptions = [
         "matrices of the left processor and of the added object are taken from their own compute_unitary() "
@@ -2546,6 +2554,10 @@ def run(chk: core.Check):
         "processor lives: modes given to add_herald / add_port / remove_port / detectors are non-negative, every add_port "
         "brings a fresh Port object; a life ends at the first exception (the state a failing call leaves behind is judged "
         "only when every mode is a herald: a refused add must then leave the processor unchanged)",
+        "a processor that lost a herald port on its OUTPUT side (remove_port leaves _n_heralds, _n_moi and the mode type "
+        "alone: m != circuit_size - #heralds) is outside the property: what adding it does is counted, not compared nor judged; "
+        "nested lives keep their ports inside their circuit (a port past the last mode of the added processor makes the port "
+        "loop of _compose_experiment die with ValueError — not modelled)",
         "the simp-* branch counters classify the inserted segment from the public component list by tracing light "
         "paths; they only show that the generator reaches the shapes, the verdict never depends on them",
     ]
